@@ -590,8 +590,49 @@ pub fn check_cli(ctx: &Ctx, c: &CliCase) -> Option<String> {
   None
 }
 
+/// A file of the tree that grows while the command runs (its own progress messages are appended to it: `2>> dir/run.log`):
+/// which of its bytes end up hashed is a matter of timing, but the torrent must agree with itself - the listed lengths
+/// add up to what the piece hashes cover, and every other file is hashed whole.
+fn growing_file(ctx: &Ctx, report: &mut Report) {
+  for p in [16u64, 64, 1000] {
+    let sb = Sandbox::new(&ctx.work, "c01g");
+    sb.write("content/a", &vec![b'a'; 100]);
+    sb.write("content/z", &vec![b'z'; 33]);
+    sb.write("content/run.log", b"");
+    let pl = p.to_string();
+    let out = Cmd::new(&ctx.imdl, &["torrent", "create", "--input", "content", "--output", "out.torrent", "--piece-length", &pl, "--allow", "small-piece-length", "--allow", "uneven-piece-length", "--md5"])
+      .cwd(&sb.root)
+      .stderr_to(&sb.path("content/run.log"))
+      .run();
+    let case = json!({"kind": "cli-growing-file", "p": p});
+    report.case(Some(fnv(case.to_string().as_bytes())));
+    report.hit("cli:a-file-that-grows-during-the-run");
+    if !out.ok() {
+      report.fail("property", "create-output-differs-from-spec", case, format!("create failed: {}", out.status_s()));
+      continue;
+    }
+    let Ok(torrent) = std::fs::read(sb.path("out.torrent")) else { continue };
+    let (_, pieces, files) = match torrent_facts(&torrent) {
+      Ok(x) => x,
+      Err(e) => {
+        report.fail("property", "create-output-differs-from-spec", case, e);
+        continue;
+      }
+    };
+    let total: u64 = files.iter().map(|f| f.1).sum();
+    let want_pieces = (total + p - 1) / p;
+    let log_len = files.iter().find(|f| f.0.join("/") == "run.log").map(|f| f.1);
+    if pieces.len() as u64 != 20 * want_pieces {
+      report.fail("property", "create-output-differs-from-spec", case, format!("the listed lengths add up to {total} bytes = {want_pieces} pieces of {p}; the torrent holds {} digests (run.log is listed with {log_len:?} bytes)", pieces.len() / 20));
+    } else if files.iter().any(|f| (f.0.join("/") == "a" && f.1 != 100) || (f.0.join("/") == "z" && f.1 != 33)) {
+      report.fail("property", "create-output-differs-from-spec", case, format!("lengths of the files that do not change are wrong: {:?}", files.iter().map(|f| (f.0.join("/"), f.1)).collect::<Vec<_>>()));
+    }
+  }
+}
+
 fn cli_part(ctx: &Ctx, report: &mut Report) {
   use rayon::prelude::*;
+  growing_file(ctx, report);
   let mut rng = Rng::new(ctx.seed).fork(0xC01C);
   let n = ctx.n(160, 4000);
   let mut cases: Vec<CliCase> = (0..n).map(|_| gen_cli(&mut rng)).collect();
